@@ -67,6 +67,7 @@ class FlightDriver:
         from haiway import cache, ctx
         limit, expn = init["limit"], init["expn"]
         self.nc = len(init["cl"])
+        self.gap = False
         self.loop = loop = VLoop(start=T0)
         self.clock = VClock(loop)
         self.clock.__enter__()
@@ -154,8 +155,14 @@ class FlightDriver:
             c, k = args
             before = len(self.invs)
             self.cl[c] = dict(pc="waiting", key=k, inv=0, out="none", got=0)
+            old = set(asyncio.all_tasks(self.loop))
             self.tasks[c] = self.loop.create_task(self._caller(c, k))
-            self.loop.quiesce()
+            if getattr(self, "gap", False):
+                # wake-ups of earlier callers are scheduled and have not run: only the newcomer (and what it starts) runs
+                self.loop.quiesce_where(lambda h: isinstance(getattr(h._callback, "__self__", None), asyncio.Task)
+                                        and h._callback.__self__ not in old)
+            else:
+                self.loop.quiesce()
             rec = self.cl[c]
             # which invocation is this caller attached to?  a new one if one was started, else the one whose
             # outcome it will get: known at once for finished invocations, inferred at delivery otherwise
@@ -177,10 +184,13 @@ class FlightDriver:
             finally:
                 self.loop.policy = None
             self.invs[i - 1]["st"] = o
+            self.gap = self.gap or any(r["pc"] == "waiting" and r["inv"] == i for r in self.cl.values())
         elif name == "CancelCaller":
             self.tasks[args[0]].cancel()
+            self.gap = True
         elif name == "Run":
             self.loop.quiesce()
+            self.gap = False
         elif name == "Advance":
             self.now += 1
             self.loop.advance(T0 + self.now)
@@ -228,6 +238,7 @@ def gen_trace(rnd, nops=40):
                 ch += [("Advance", [])]
             else:
                 ch += [("Run", [])] * 3
+                ch += [("Begin", [c, rnd.randint(1, 3)]) for c in d.cl if d.cl[c]["pc"] != "waiting"]   # a newcomer in the gap
             ch += [("Finish", [i, rnd.choice(["val", "val", "exc"])]) for i in running]
             ch += [("CancelCaller", [c]) for c in waiting if c not in cpend]
             if not ch:
